@@ -64,8 +64,8 @@ func Greeting(serverVersion string, connID uint32) []byte {
 	b = append(b, 0)
 	caps := uint32(0x00000001 | 0x00000004 | 0x00000008 | 0x00000200 | 0x00002000 | 0x00008000 | 0x00080000 | 0x00010000 | 0x00020000)
 	b = le16(b, uint16(caps))
-	b = append(b, 33)     // utf8_general_ci
-	b = le16(b, 0x0002)   // SERVER_STATUS_AUTOCOMMIT
+	b = append(b, 33)   // utf8_general_ci
+	b = le16(b, 0x0002) // SERVER_STATUS_AUTOCOMMIT
 	b = le16(b, uint16(caps>>16))
 	b = append(b, 21)
 	b = append(b, make([]byte, 10)...)
